@@ -19,6 +19,7 @@ RULE = (
     "Generated/DtypeTables.lean and compared with the documented table by `decide +kernel` (Lean) and, cell by cell, by the Python oracle "
     "to name a failing cell. exhaustive over the enumerated dtypes. non-trivial = cell whose dtype category is not 'other'"
 )
+RULE += " Also: a refusal that is not the dtype error is recorded by the table observation and reported."
 
 
 def use_sites(run, dts, acc_rows, classes) -> int:
